@@ -30,6 +30,15 @@ FLOORS = {'quick': {'cases_in_mode_debuglog': 209, 'moves_refused_for_a_wrong_ty
 EXHAUSTIVE = {}
 
 
+def _wrap_kw(wrap):
+    """wrap_env=False is the documented default: half of the non-wrapping worlds are built without naming it."""
+    _wrap_kw.n += 1
+    return {} if (wrap is False and _wrap_kw.n % 2) else {'wrap_env': wrap}
+
+
+_wrap_kw.n = 0
+
+
 def fixtures():
     import ECAgent.Core as core
     import ECAgent.Environments as envs
@@ -55,16 +64,16 @@ def case_world(ctx, case):
     wrap = rng.random() < 0.5
     if kind == 'space':
         ext = [rng.choice([2, 5, 10, 2.5, 7.125]), rng.choice([0, 3, 10, 6.5]), rng.choice([0, 0, 4])]
-        env = envs.SpaceWorld(model, *ext, wrap_env=wrap)
+        env = envs.SpaceWorld(model, *ext, **_wrap_kw(wrap))
     elif kind == 'discrete':
         ext = [rng.choice([0, 3, 6]), rng.choice([0, 2, 5]), rng.choice([0, 1, 4])]
-        env = envs.DiscreteWorld(model, *ext, wrap_env=wrap)
+        env = envs.DiscreteWorld(model, *ext, **_wrap_kw(wrap))
     elif kind == 'grid':
         ext = [rng.randint(1, 7), rng.randint(1, 7), 0]
-        env = envs.GridWorld(model, ext[0], ext[1], wrap_env=wrap)
+        env = envs.GridWorld(model, ext[0], ext[1], **_wrap_kw(wrap))
     else:
         ext = [rng.randint(1, 9), 0, 0]
-        env = envs.LineWorld(model, ext[0], wrap_env=wrap)
+        env = envs.LineWorld(model, ext[0], **_wrap_kw(wrap))
     model.environment = env
     grid = kind != 'space'
     off = 1 if grid else 0
@@ -148,6 +157,14 @@ def case_world(ctx, case):
         lee_pool = [-1, 0, 0, 1, 2, 3] if grid else [-1.0, -0.125, 0, 0.0, 0.125, 0.5, 1.0, 2.5, 3]
         L = rng.choice(lee_pool)
         AL = [rng.choice([0, 0, L] + lee_pool) for _ in range(3)]
+        if grid and rng.random() < 0.05:
+            # every argument an int, and a leeway that stands for 'no limit' on one axis (sys.maxsize) or in general (2**70)
+            import sys as _sys
+            q = [int(v) for v in q]
+            L = rng.choice([0, 1, 2 ** 70])
+            AL = [int(v) if isinstance(v, int) else 0 for v in AL]
+            AL[rng.randrange(3)] = _sys.maxsize
+            ctx.count('queries_with_an_unbounded_integer_leeway')
         eff = [max(L, AL[k]) for k in range(3)]
         # put agents exactly on faces / at the centre / coincident
         faced = 0
@@ -168,7 +185,7 @@ def case_world(ctx, case):
             ctx.count('coincident_pairs')
         # the call, with varying argument styles
         style = rng.random()
-        if style < 0.15:
+        if style < 0.15 and all(abs(v) < 2 ** 31 for v in list(q) + [L] + AL):
             # the same numbers as numpy scalars (coordinates / leeways read from arrays)
             import numpy as np
             N = lambda v: (np.int64(v) if isinstance(v, int) else np.float64(v))    # noqa
